@@ -29,6 +29,7 @@ independent implementation of ninja's lexer/evaluation rules (the MODEL) and
 """
 
 import collections
+import copy
 import itertools
 import logging
 import os
@@ -635,7 +636,7 @@ def _worker_init(base):
   import importlab.graph
   _W.update(base=base, environment=environment, ap_env=ap_env,
             runner=pytype_runner, graph=importlab.graph, loader=imports_map_loader,
-            parser=parse_args.make_parser(),
+            conf0=parse_args.make_parser().config_from_defaults(),
             typeshed=environment.initialize_typeshed_or_die(),
             ninja=_ninja_binary(), seq=0)
   return _W
@@ -654,7 +655,7 @@ def _ninja_binary():
 
 def generate_plan(w, proj, request, outdir):
   """main.py's pipeline from a populated config to setup_build().  Returns the runner."""
-  conf = w["parser"].config_from_defaults()
+  conf = copy.copy(w["conf0"])      # = parser.config_from_defaults(), made once per process
   # main.py holds the inputs in a set, so the order in which importlab sees them is an accident of string
   # hashing; "asc"/"desc" pin it (every consumer only iterates or calls set() on it)
   conf.inputs = {proj.src[i] for i in request}
@@ -1160,6 +1161,10 @@ def run(rep, tier, seed):
       "the imports-map key of a module is its path below the project root without extension",
       "CLI/config parsing (space-separated inputs, ':'-separated pythonpath) is bypassed: the Config object is "
       "populated directly, pythonpath via tools.environment.compute_pythonpath as main.py does by default",
+      "the property is checked at the level of the plan (paths and variable values as ninja evaluates them); how "
+      "/bin/sh later tokenises a command line is not: ninja quotes $in and $out, but the rule expands "
+      "`--imports_info $imports` unquoted, so an output directory containing a space or '$' reaches pytype-single "
+      "split/expanded (visible in ninja -t commands; reported separately, not alarmed on)",
       "directory names contain space, ':' and '$' (also adjacent); '|', '#', newline, quotes and module file "
       "names that are not identifiers are outside the bound; graphs beyond the stated sizes are not covered",
   ]
